@@ -15,7 +15,8 @@ Postcondition monitors on ``rdp.mapping`` and ``rdp.compute_removed_points``.
   sum reproduces ``reduced`` (that is what "mapping(I, reduced, table) ==
   reduced[I] for every I" demands of the table, and nothing more).
 * run_case: the table each simplifier returned must equal (numerically)
-  ``compute_removed_points(points, reduced)``.
+  ``compute_removed_points(points, reduced)``; a malformed pair returned by a
+  simplifier is still held to ``mapping(all positions) == reduced``.
 """
 import itertools
 
@@ -40,7 +41,9 @@ META = {
              'count columns, list and ndarray arguments, one random row permutation for sorted=False; '
              '(c) the (reduced, removed) pairs returned by rdp, grdp, rdp_fixed, mp_grdp, min_point_rdp on gen.curve '
              'curves (12 families x 4 layouts x random configuration): mapping on them and '
-             'compute_removed_points(points, reduced) == returned table (numerically). '
+             'compute_removed_points(points, reduced) == returned table (numerically); a malformed pair returned by '
+             'a simplifier (e.g. a duplicated index) is out-of-domain for the two monitors but is still checked '
+             'directly: mapping(all positions) == reduced (key simplifier-pair:rdp.<name>). '
              'distinct = digest(reduced, I, sorted flag, row order); non-trivial = at least one removed point lies '
              'before a queried position (reduced[I[-1]] > I[-1])'),
     # about 1/3 of a normal quick run (mapping 61.6k, removed-table 13.1k, simplifier-table 3.5k, non-trivial 46.9k);
@@ -364,6 +367,23 @@ def run_random(ctx, rdp, case):
                     'mapped_unsorted': install.orig('rdp', 'mapping')(idx, red, removed[perm], False)}, cap=3)
 
 
+def returned_pair(ctx, s, g, n, reduced, removed, why):
+    """A malformed pair a simplifier returned: the mapping monitor classifies it out-of-domain (it cannot know
+    where the pair came from), but the statement quantifies over *every* pair a simplifier returns, so the
+    identity is evaluated here directly, on all positions."""
+    try:
+        r = np.asarray(reduced)
+        idx = np.arange(len(r))
+        got = np.asarray(install.orig('rdp', 'mapping')(idx, reduced, removed))
+        good = got.shape == r.shape and bool(np.all(got == r))
+    except Exception as e:
+        got, good = repr(e), False
+    ctx.check(good, 'simplifier-pair', f'simplifier-pair:rdp.{s}',
+              f'rdp.{s} returned a malformed reduction ({why}) on which mapping(all positions) != reduced',
+              simplifier=s, config=g, n=n, reduced=small(reduced), removed=small(removed, 128),
+              mapped=small(got) if isinstance(got, np.ndarray) else got)
+
+
 def run_curve(ctx, mods, case):
     rdp = mods['rdp']
     pts = gen.present(case['points'], case['layout'])
@@ -405,7 +425,8 @@ def run_curve(ctx, mods, case):
         if why is None and red[-1] != n - 1:
             why = 'reduced-does-not-end-at-the-last-point'
         if why:
-            ctx.ood('simplifier-table', f'{why}:{s}')            # malformed reduction: C01's business
+            ctx.ood('simplifier-table', f'{why}:{s}')            # malformed reduction: C01's business ...
+            returned_pair(ctx, s, g, n, reduced, removed, why)   # ... but the statement covers every returned pair
             continue
         k = len(red)
         ctx.h('simplifier_x_family', f'{s}/{fam}')
